@@ -171,6 +171,7 @@ def c01(ctx, rep):
     detectors.rule_validated_in_block(ctx, rep)
     detectors.rule_search_paths_exits(ctx, rep)
     detectors.rule_search_paths_rows(ctx, rep)
+    detectors.rule_absolute_index_access(ctx, rep)
     generic_core(ctx, rep)
     optable.rule_stack_effect(ctx, rep)
     cmptables.rule_addr_tables(ctx, rep)
